@@ -27,7 +27,9 @@ LEAN_DIR = os.path.join(VERIF, 'lean')
 DRIVER = os.path.join(LEAN_DIR, '.lake', 'build', 'bin', 'btcmodel')
 WORK = os.path.join(VERIF, '.work')
 REPLAYS = os.path.join(VERIF, 'replays')
-EVIDENCE = os.path.join(VERIF, 'evidence')
+# evidence committed under evidence/ must describe runs against /repo itself; runs against a scratch copy
+# (REPO_ROOT set by the seed / refactoring test tools) write elsewhere
+EVIDENCE = os.path.join(VERIF, 'evidence') if REPO == '/repo' else os.path.join(WORK, 'evidence-scratch')
 CORPUS = os.path.join(VERIF, 'corpus')
 NCPU = int(os.environ.get('VERIF_JOBS', str(min(16, os.cpu_count() or 1))))
 
